@@ -443,6 +443,96 @@ theorem global_initialisers_not_analysed :
     · exact ⟨_, rfl, _, List.mem_singleton.2 rfl, rfl⟩
   · exact ⟨[(.fn 0, [.glob 1]), (.glob 0, []), (.glob 1, [])], by decide, by decide⟩
 
+/-! ## Program level -/
+
+/-- every function / global index an item or initialiser mentions exists -/
+structure IndexClosed (p : Program) : Prop where
+  uses : ∀ fd ∈ p.funcs, ∀ it ∈ fd.items, ∀ s ∈ Item.seenSyms p.globals it,
+    match s with
+    | .fn f => f < p.funcs.length
+    | .glob g => g < p.globals.length
+    | .cb _ => False
+  inits : ∀ gl ∈ p.globals, ∀ u ∈ gl.initUses, u.2 < p.globals.length
+
+theorem keysOf_calculateLocal (p : Program) : keysOf (calculateLocal p) =
+    (List.range p.funcs.length).map Sym.fn ++ (List.range p.globals.length).map Sym.glob := by
+  simp [calculateLocal, keysOf, List.map_append, List.map_map, Function.comp_def]
+
+/-- **`calculate_local` produces a well-formed table** for every index-closed program: the hypothesis of the
+    fixpoint theorems is what the real `calculate_local` establishes (one entry per function and global, sets
+    are `HashSet`s) -/
+theorem calculateLocal_wf (p : Program) (hp : IndexClosed p) : WF (calculateLocal p) := by
+  have hmem : ∀ k x, x ∈ val (calculateLocal p) k → ∃ s, (k, s) ∈ calculateLocal p ∧ x ∈ s := by
+    intro k x hx
+    cases hl : (calculateLocal p).lookup k with
+    | none => simp [val, hl] at hx
+    | some s => exact ⟨s, mem_of_lookup hl, by simpa [val, hl] using hx⟩
+  have hentry : ∀ k s, (k, s) ∈ calculateLocal p → s.Nodup ∧ ∀ x ∈ s, x ∈ keysOf (calculateLocal p) := by
+    intro k s hks
+    rw [keysOf_calculateLocal]
+    simp only [calculateLocal, List.range_zero, List.map_nil, List.append_nil, List.mem_append, List.mem_map,
+      List.mem_range, Prod.mk.injEq] at hks
+    rcases hks with ⟨i, hi, rfl, rfl⟩ | ⟨i, hi, rfl, rfl⟩
+    · refine ⟨nodup_extend List.nodup_nil, ?_⟩
+      intro x hx
+      have hfd : p.funcs.getD i ⟨"", [], [], none⟩ ∈ p.funcs := by
+        rw [List.getD_eq_getElem?_getD, List.getElem?_eq_getElem hi]
+        exact List.getElem_mem hi
+      rcases mem_extend.1 hx with hx | hx
+      · simp at hx
+      · obtain ⟨it, hit, hxs⟩ := List.mem_flatMap.1 hx
+        have := hp.uses _ hfd it hit x hxs
+        cases x with
+        | fn f => simp only [List.mem_append, List.mem_map, List.mem_range]; exact .inl ⟨f, this, rfl⟩
+        | glob g => simp only [List.mem_append, List.mem_map, List.mem_range]; exact .inr ⟨g, this, rfl⟩
+        | cb _ => exact absurd this (by simp)
+    · split
+      · refine ⟨nodup_extend List.nodup_nil, ?_⟩
+        intro x hx
+        have hgl : p.globals.getD i ⟨"", .Static, false, false, false, false, [], []⟩ ∈ p.globals := by
+          rw [List.getD_eq_getElem?_getD, List.getElem?_eq_getElem hi]
+          exact List.getElem_mem hi
+        rcases mem_extend.1 hx with hx | hx
+        · simp at hx
+        · obtain ⟨u, hu, rfl⟩ := List.mem_map.1 hx
+          have := hp.inits _ hgl u (List.mem_filter.1 hu).1
+          simp only [List.mem_append, List.mem_map, List.mem_range]
+          exact .inr ⟨u.2, this, rfl⟩
+      · exact ⟨List.nodup_nil, by simp⟩
+  constructor
+  · intro k x hx
+    obtain ⟨s, hks, hxs⟩ := hmem k x hx
+    exact (hentry k s hks).2 x hxs
+  · intro k
+    cases hl : (calculateLocal p).lookup k with
+    | none => simp [val, hl]
+    | some s =>
+      have : val (calculateLocal p) k = s := by simp [val, hl]
+      rw [this]
+      exact (hentry k s (mem_of_lookup hl)).1
+
+/-- for every index-closed program the analysis returns a closure table (no panic, no fuel exhaustion) -/
+theorem closeProgram_ok (p : Program) (hp : IndexClosed p) :
+    ∃ cl, closeProgram p (keysOf (calculateLocal p)) = .ok cl := by
+  obtain ⟨t', ht⟩ := recurse_terminates (calculateLocal_wf p hp) (keys := keysOf (calculateLocal p)) (fun _ hk => hk)
+  exact ⟨t', by simp [closeProgram, ht]⟩
+
+/-- `threaded_exactly_partial` at program level -/
+theorem threaded_exactly_program_partial (p : Program) (hp : IndexClosed p) {cl : Table}
+    (hcl : closeProgram p (keysOf (calculateLocal p)) = .ok cl) (f g : Nat) :
+    (⟨globalVariant, g⟩ : Implicit) ∈ requiredP p cl f ↔
+      (∃ gl, p.globals[g]? = some gl ∧ modeOf gl = some .parameter) ∧
+      Needs (Mentions (calculateLocal p)) (.fn f) (.glob g) := by
+  have hrec : recurse (keysOf (calculateLocal p)) (calculateLocal p) = .ok (some cl) := by
+    unfold closeProgram at hcl
+    split at hcl
+    · exact absurd hcl (by simp)
+    · exact absurd hcl (by simp)
+    · rename_i t ht
+      injection hcl with hcl
+      rw [ht, hcl]
+  exact threaded_exactly_partial p (calculateLocal_wf p hp) (fun _ => Iff.rfl) hrec f g
+
 /-! ## Non-vacuity -/
 
 /-- a diamond with an unused function: `f3 → {f1, f2} → f0 → g0`, `f2 → g1`, `f4` alone -/
@@ -451,6 +541,25 @@ def exampleTable : Table :=
    (.glob 0, []), (.glob 1, [])]
 
 example : WF exampleTable := wf_of_check (by decide)
+-- the hypothesis of the program-level theorems holds for the two witness programs
+example : WF (calculateLocal witnessDefaultArg) := wf_of_check (by decide)
+example : IndexClosed witnessGlobalInit := by
+  constructor
+  · intro fd hfd it hit s hs
+    simp only [witnessGlobalInit, List.mem_singleton] at hfd
+    subst hfd
+    simp only [List.mem_singleton] at hit
+    subst hit
+    have : s = .glob 1 := by
+      have h : Item.seenSyms witnessGlobalInit.globals (.use (.body [S "Expression" 0]) 1) = [.glob 1] := by decide
+      rw [h] at hs; simpa using hs
+    subst this
+    decide
+  · intro gl hgl u hu
+    simp only [witnessGlobalInit, List.mem_cons, List.not_mem_nil, or_false] at hgl
+    rcases hgl with rfl | rfl
+    · simp at hu
+    · simp only [List.mem_singleton] at hu; subst hu; decide
 example : (recurse (keysOf exampleTable) exampleTable).toOption = some (some
     [(.fn 0, [.glob 0]), (.fn 1, [.fn 0, .glob 0]), (.fn 2, [.fn 0, .glob 1, .glob 0]),
      (.fn 3, [.fn 1, .fn 2, .fn 0, .glob 0, .glob 1]), (.fn 4, []), (.glob 0, []), (.glob 1, [])]) := by decide
